@@ -48,7 +48,10 @@ TEXT = ['a', 'b', 'Z', ' ', '  ', '\n', '\n\n', '\t', '#', ':', '"', "'", '-', '
 NAMECH = list('abcxyz019') + [':', ':', '_', '-', '.', '/', 'é', 'ü', '*', '+']
 CHECKS = ['role:a', "'x':%(y)s or role:b", '', '@', '!', 'rule:z and not role:q', "(role:a or 'Member':%(role.name)s) and not rule:r",
           'project_id:%(project_id)s', 'role:a#b', 'http://h/%(n)s', 'is_admin:True or (role:é and k:v)', "role:it's", 'a:b,c', 'x:{y}',
-          'tenant:%(tenant_id)s  or   role:spaced', 'rule:admin_required', 'user_id:%(user.id)s', '[role:a]', 'not @', 'role:  a']
+          'tenant:%(tenant_id)s  or   role:spaced', 'rule:admin_required', 'user_id:%(user.id)s', '[role:a]', 'not @', 'role:  a',
+          ' or '.join('role:member_of_group_%d' % i for i in range(9)),
+          '(role:admin and project_id:%(project_id)s) or (role:member and user_id:%(user_id)s) or rule:a_rather_long_rule_name_here',
+          'x:' + 'y' * 90 + ' or role:z', 'role:' + 'a' * 120]
 
 
 def gen_text(rnd, n):
@@ -56,7 +59,10 @@ def gen_text(rnd, n):
 
 
 def gen_name(rnd, i):
-    return 'svc%d:' % i + ''.join(rnd.choice(NAMECH) for _ in range(rnd.randint(1, 8)))
+    n = 'svc%d:' % i + ''.join(rnd.choice(NAMECH) for _ in range(rnd.randint(1, 8)))
+    if rnd.random() < 0.1:
+        n += ':' + 'long_policy_name_segment_' * 3 + 'x'          # a name that pushes the rule line past 80 columns
+    return n
 
 
 def gen_default_spec(rnd, i):
@@ -190,6 +196,10 @@ def run(ctx):
         if (i & 0x3f) == 0 and ctx.expired():
             break
         specs = [gen_default_spec(rnd, j) for j in range(rnd.randint(1, 6))]
+        for sp in list(specs):
+            if sp['kind'] == 'renamed' and rnd.random() < 0.4:
+                # the old name is itself still a registered policy, listed after the renamed one
+                specs.append(dict(kind='plain', name=sp['old_name'], check=rnd.choice(CHECKS), desc=gen_text(rnd, 4), reason='', since=''))
         case = dict(specs=specs, fmt='yaml' if rnd.random() < 0.65 else 'json', exclude=rnd.random() < 0.4)
         if rnd.random() < 0.4:
             n, parts = len(specs), []
